@@ -167,20 +167,39 @@ def gen_float(rng):
     return kind, "%016x" % bits
 
 
-def gen_line(rng):
-    r = rng.random()
-    if r < 0.30:
-        return "insp\tstr\t" + hx(gen_str(rng))
-    if r < 0.42:
-        return "insp\tchr\t%d" % gen_chr(rng)
-    if r < 0.67:
-        return "insp\tsym\t" + hx(gen_sym(rng))
-    if r < 0.75:
-        return "insp\tint\t%d" % gen_int(rng)
-    if r < 0.88:
-        return "insp\tlit\t" + hx(gen_lit(rng))
-    s, b = gen_toint(rng)
-    return "insp\ttoint\t%s\t%d" % (hx(s), b)
+BATCH = 40
+
+
+def gen_lines(rng, n):
+    """n values, grouped into self-contained batch lines (one Elk program per batch on the implementation
+    side); malformed integer literals and String#to_int calls travel alone."""
+    items = {"str": [], "chr": [], "sym": [], "int": [], "lit": []}
+    single = []
+    for _ in range(n):
+        r = rng.random()
+        if r < 0.30:
+            items["str"].append(hx(gen_str(rng)))
+        elif r < 0.42:
+            items["chr"].append("%d" % gen_chr(rng))
+        elif r < 0.67:
+            items["sym"].append(hx(gen_sym(rng)))
+        elif r < 0.75:
+            items["int"].append("%d" % gen_int(rng))
+        elif r < 0.88:
+            src = gen_lit(rng)
+            if CLEAN_LIT.match(src):
+                items["lit"].append(hx(src))
+            else:
+                single.append("insp\tlit\t" + hx(src))
+        else:
+            t, b = gen_toint(rng)
+            single.append("insp\ttoint\t%s\t%d" % (hx(t), b))
+    lines = []
+    for kind, its in items.items():
+        for i in range(0, len(its), BATCH):
+            lines.append("insp\tbatch\t%s\t%s" % (kind, ",".join(its[i:i + BATCH])))
+    rng.shuffle(lines)
+    return lines + single
 
 
 # ---------------------------------------------------------------- oracle (model-free)
@@ -199,33 +218,55 @@ def positional(digits, base):
     return v
 
 
+def judge_rt(kind, item, ins, back):
+    """round trip of one value: `back` must be the canonical form of the original"""
+    if kind == "chr" and not strlib.valid_scalar(int(item)):
+        return None      # a Char that is not a Unicode scalar value cannot be written as a literal: no claim
+    if back != item:
+        shown = unhx(ins).decode("utf-8", "backslashreplace")
+        return (f"{kind} {item} inspects to {shown!r} which evaluates to {back} "
+                f"(inspect output does not evaluate back to the original value)")
+    return None
+
+
+def judge_lit(src, ans):
+    m = CLEAN_LIT.match(src)
+    if not m:
+        return None      # outside the clean literal grammar: correspondence only
+    k = m.lastgroup
+    want = positional(m.group(k).replace(b"_", b"").decode(), LIT_BASE[k])
+    if ans != "%d" % want:
+        return f"literal {src.decode()!r} evaluates to {ans!r}, its positional value is {want}"
+    return None
+
+
 def oracle(line, ans):
     f = line.split("\t")
     op = f[1]
-    if ans.startswith("panic") or ans.startswith("fatal"):
-        return f"{op}: the pipeline crashed: {ans}"
+    if ans.startswith("panic") or ans.startswith("fatal") or "!panic" in ans:
+        return f"{op}: the pipeline crashed: {ans[:200]}"
+    if op == "batch":
+        if not ans.startswith("ok "):
+            return f"unexpected answer {ans[:200]!r}"
+        kind, items, outs = f[2], f[3].split(","), ans[3:].split(",")
+        if len(items) != len(outs):
+            return f"batch of {len(items)} answered {len(outs)} results"
+        for it, o in zip(items, outs):
+            if kind == "lit":
+                r = judge_lit(unhx(it), o)
+            else:
+                ins, back = o.split(":", 1)
+                r = judge_rt(kind, it, ins, back)
+            if r:
+                return r
+        return None
     if op in ("str", "sym", "chr", "int"):
         if not ans.startswith("ok "):
             return f"unexpected answer {ans!r}"
         ins, back = ans[3:].split(" ", 1)
-        src = unhx(ins)
-        if op == "chr" and not strlib.valid_scalar(int(f[2])):
-            return None      # a Char that is not a Unicode scalar value cannot be written as a literal: no claim
-        if back != f[2]:
-            shown = src.decode("utf-8", "backslashreplace")
-            return (f"{op} {f[2]} inspects to {shown!r} which evaluates to {back} "
-                    f"(inspect output does not evaluate back to the original value)")
-        return None
+        return judge_rt(op, f[2], ins, back)
     if op == "lit":
-        src = unhx(f[2])
-        m = CLEAN_LIT.match(src)
-        if not m:
-            return None      # outside the clean literal grammar: correspondence only
-        k = m.lastgroup
-        want = positional(m.group(k).replace(b"_", b"").decode(), LIT_BASE[k])
-        if ans != "ok %d" % want:
-            return f"literal {src.decode()!r} evaluates to {ans!r}, its positional value is {want}"
-        return None
+        return judge_lit(unhx(f[2]), ans[3:] if ans.startswith("ok ") else ans)
     if op == "toint":
         s, base = unhx(f[2]), int(f[3])
         body = s
@@ -264,15 +305,11 @@ def oracle(line, ans):
     return None
 
 
-def float_oracle(line, ans):
-    f = line.split("\t")
-    kind, bits = f[1], int(f[2], 16)
-    if not ans.startswith("ok "):
-        return f"unexpected answer {ans!r}"
-    ins, back = ans[3:].split(" ", 1)
+def float_one(kind, bits_hex, ins, back):
+    bits = int(bits_hex, 16)
     text = unhx(ins).decode("latin-1")
     if back.startswith("!"):
-        return f"{kind} {f[2]} inspects to {text!r} which does not evaluate ({back})"
+        return f"{kind} {bits_hex} inspects to {text!r} which does not evaluate ({back})"
     back = int(back, 16)
     if kind == "f32":
         v = struct.unpack("<f", struct.pack("<I", bits))[0]
@@ -283,18 +320,55 @@ def float_oracle(line, ans):
     if math.isnan(v):
         return None if math.isnan(w) else f"NaN inspects to {text!r} which evaluates to {w!r}"
     if back != bits:
-        return f"{kind} {f[2]} ({v!r}) inspects to {text!r} which evaluates to bits {back:x} ({w!r})"
+        return f"{kind} {bits_hex} ({v!r}) inspects to {text!r} which evaluates to bits {back:x} ({w!r})"
+    # the text itself must denote the value (independent check with Python's float parser)
+    num = re.match(r"^-?[0-9.]+(?:e[+-]?[0-9]+)?", text)
+    if num and not text.startswith("Std::"):
+        p = float(num.group(0))
+        if kind == "f32":
+            p = struct.unpack("<f", struct.pack("<f", p))[0]
+        if p != v or math.copysign(1, p) != math.copysign(1, v):
+            return f"{kind} {bits_hex} ({v!r}) inspects to {text!r} which denotes {p!r}"
     return None
+
+
+def float_oracle(line, ans):
+    f = line.split("\t")
+    if not ans.startswith("ok "):
+        return f"unexpected answer {ans[:200]!r}"
+    if f[1] == "batch":
+        items, outs = f[3].split(","), ans[3:].split(",")
+        if len(items) != len(outs):
+            return f"batch of {len(items)} answered {len(outs)} results"
+        for it, o in zip(items, outs):
+            ins, back = o.split(":", 1)
+            r = float_one(f[2], it, ins, back)
+            if r:
+                return r
+        return None
+    ins, back = ans[3:].split(" ", 1)
+    return float_one(f[1], f[2], ins, back)
 
 
 def classify(line, a, b, pf):
     f = line.split("\t")
-    return (f[1] + (":" + f[2] if f[1] == "sweep" else ""), "model!=impl" if a != b else "model=impl", "property" if pf else "no-property-failure")
+    op = f[1] + (":" + f[2] if f[1] in ("sweep", "batch") else "")
+    return (op, "model!=impl" if a != b else "model=impl", "property" if pf else "no-property-failure")
 
 
 def minimise(line, still):
     f = line.split("\t")
     op = f[1]
+    if op == "batch":
+        items = f[3].split(",")
+        if len(items) > 1:
+            items = vlib.ddmin(items, lambda sub: still("\t".join(f[:3] + [",".join(sub)])))
+        line = "\t".join(f[:3] + [",".join(items)])
+        if len(items) == 1:
+            single = "\t".join(["insp", f[2], items[0]])
+            if still(single):
+                return minimise(single, still)
+        return line
     if op in ("str", "sym", "lit", "toint"):
         bs = list(unhx(f[2]))
         rest = f[3:]
@@ -314,6 +388,11 @@ def minimise(line, still):
                 break
         return "\t".join(f[:3] + [str(lo), str(hi)])
     return line
+
+
+def is_float_line(l):
+    f = l.split("\t")
+    return f[1] in ("f", "f64", "f32") or (f[1] == "batch" and f[2] in ("f", "f64", "f32"))
 
 
 def regen_tables(ctx):
@@ -370,33 +449,49 @@ def run(ctx):
     if ctx.replay:
         rp = json.load(open(ctx.replay))["input"]
         lines = [rp["line"]]
-        if lines[0].split("\t")[1] in ("f", "f64", "f32"):
+        if is_float_line(lines[0]):
             a = vlib.run_impl(lines)[0]
             pf = float_oracle(lines[0], a)
             if pf:
                 ctx.violation("property-fails", {"line": lines[0]}, pf)
             return
     else:
-        n = ctx.n(3000, 120000)
-        lines = vlib.corpus_lines("C19") + [gen_line(ctx.rng) for _ in range(n)] + sweep_lines(ctx)
-        lines = [l for l in lines if l.split("\t")[1] not in ("f", "f64", "f32")]
+        n = ctx.n(6000, 250000)
+        lines = [l for l in vlib.corpus_lines("C19") if not is_float_line(l)] + gen_lines(ctx.rng, n) + sweep_lines(ctx)
     for ln in lines:
         f = ln.split("\t")
-        ctx.stat("op:" + f[1] + (":" + f[2] if f[1] == "sweep" else ""))
+        k = f[1] + (":" + f[2] if f[1] in ("sweep", "batch") else "")
+        ctx.stat("op:" + k, len(f[3].split(",")) if f[1] == "batch" else 1)
     strlib.correspond2(ctx, lines, oracle=oracle, minimise=minimise, classify=classify,
                        label="inspect writers and lexer readers (String/Char/Symbol/Int)", timeout=3000)
     if not ctx.replay:
         # floats: implementation only (no Lean model of strconv); judged by the oracle
-        fl = [l for l in vlib.corpus_lines("C19") if l.split("\t")[1] in ("f", "f64", "f32")]
-        fl += ["insp\t%s\t%s" % gen_float(ctx.rng) for _ in range(ctx.n(1500, 60000))]
+        fl = [l for l in vlib.corpus_lines("C19") if is_float_line(l)]
+        by = {"f": [], "f64": [], "f32": []}
+        for _ in range(ctx.n(3000, 120000)):
+            k, b = gen_float(ctx.rng)
+            by[k].append(b)
+        for k, bs in by.items():
+            for i in range(0, len(bs), BATCH):
+                fl.append("insp\tbatch\t%s\t%s" % (k, ",".join(bs[i:i + BATCH])))
         ans = vlib.run_impl(fl)
         bad = 0
         for ln, a in zip(fl, ans):
             ctx.case(ln, sample=None)
-            ctx.stat("op:" + ln.split("\t")[1])
+            f = ln.split("\t")
+            ctx.stat("op:float:" + (f[2] if f[1] == "batch" else f[1]), len(f[3].split(",")) if f[1] == "batch" else 1)
             pf = float_oracle(ln, a)
             if pf:
                 bad += 1
                 if bad <= 3:
+                    # shrink a batch to the first failing bit pattern
+                    if f[1] == "batch":
+                        for it in f[3].split(","):
+                            l1 = "insp\t%s\t%s" % (f[2], it)
+                            p1 = float_oracle(l1, vlib.run_impl([l1])[0])
+                            if p1:
+                                ln, pf = l1, p1
+                                break
                     ctx.violation("property-fails", {"line": ln}, pf)
-        ctx.obligation(f"float inspect round-trip on {len(fl)} generated bit patterns (implementation, strconv assumed)", bad == 0, "correspondence")
+        ctx.obligation(f"float inspect round-trip on {len(fl)} generated batches of bit patterns (implementation, strconv assumed)",
+                       bad == 0, "correspondence")
